@@ -50,7 +50,7 @@ def check(prog, rep):
         rep.ob("R09.1", f.qual.split(":")[1], False, f"a callable handed to SciPy is created in a loop and reads the loop-variant name(s) {fv} as free variables (late binding): every constraint ends up using the last iteration's value, so SciPy solves a different problem than a hand-written call", loc=f"{f.module.rel}:{n.lineno}", detail=f"late-binding:{','.join(fv)}")
     rep.ob("R09.1", "solver callables", not bad, "no callable handed to SciPy reads a loop-variant name late", detail="no-late-binding", loc=None)
     rep.expect_min("R09.1", 12)
-    rep.expect_min("R09.2", 1)
+    rep.expect_min("R09.2", 3)
     rep.expect_min("R09.3", 3)
     rep.expect_min("R09.4", 4)
     rep.expect_min("R09.5", 3)
@@ -98,9 +98,12 @@ def _wiring(prog, rep, fi, call):
         if isinstance(node, ast.Name) and node.id in nested:
             inner = [c for c in calls(nested[node.id].node, local=False) if isinstance(c.func, ast.Name) and c.func.id not in ("float", "int")]
             return inner[0].func.id if inner else None
+        if isinstance(node, ast.Lambda):
+            inner = [c for c in ast.walk(node.body) if isinstance(c, ast.Call) and isinstance(c.func, ast.Name) and c.func.id not in ("float", "int")]
+            return inner[0].func.id if inner else None
         if isinstance(node, ast.Name):
             for v in assigns.get(node.id, []):
-                if isinstance(v, ast.Name):
+                if isinstance(v, (ast.Name, ast.Lambda)):
                     r = wrapped_callable(v)
                     if r:
                         return r
@@ -180,36 +183,58 @@ def _wiring(prog, rep, fi, call):
             origin = next((x for x in ah.get(vh.id, []) if isinstance(x, ast.Call)), None)
         ok = isinstance(origin, ast.Call) and dotted(origin.func) == "compile_hessian" and len(origin.args) > 1
         exprn = src(origin.args[0]) if ok else None
-        from_obj = ok and any(isinstance(x, ast.AST) and src(x).endswith(".objective") for x in ah.get(exprn, []))
+        from_obj = ok and (any(isinstance(x, ast.AST) and src(x).endswith(".objective") for x in ah.get(exprn, []))
+                           or any(isinstance(x, ast.Attribute) and x.attr in ("objective", "_objective") for x in ast.walk(origin.args[0]))
+                           or any(isinstance(x, ast.Name) and any(isinstance(v_, ast.AST) and src(v_).endswith(".objective") for v_ in ah.get(x.id, [])) for x in ast.walk(origin.args[0])))
         rep.ob("R09.1", f"{fh.name}:hess_fn", bool(from_obj), f"the Hessian is compiled from the problem's objective (`{exprn}`)" if from_obj else "the Hessian handed to SciPy is not compiled from the problem's objective", loc=f"{fh.module.rel}:{vh.lineno}", detail="from-objective")
 
-    # R09.2 negation consistency
-    flips = []
+    # R09.2 negation consistency: every artefact compiled for the backend is compiled from -objective iff the user
+    # maximises (symbolic value per world, shape-free); the reported value is C07 R07.1
+    from .c07 import _world_value
+    from .. import algebra as al_
+    n_art = 0
     for f2 in prog.functions.values():
-        if f2.module is fi.module:
-            flips += [(f2, nm, g_, n) for nm, g_, n in negations(f2)]
-    guards = {g_ for _f, _n, g_, _x in flips}
-    roles_hit = set()
-    for f2, nm, g_, n in flips:
+        if f2.module is not fi.module:
+            continue
         for c in calls(f2.node):
             d = dotted(c.func) or ""
-            if d.startswith("compile_") and c.lineno > n.lineno and any(isinstance(x, ast.Name) and x.id == nm for a in c.args for x in ast.walk(a)):
-                roles_hit.add(d)
-        if any(k.arg == "objective_value" and src(k.value) == nm for c in calls(f2.node) if dotted(c.func) == "Solution" for k in c.keywords):
-            roles_hit.add("reported")
-    need = {"compile_expression", "compile_jacobian", "compile_hessian", "reported"}
-    ok = len(guards) == 1 and need <= roles_hit
-    rep.ob("R09.2", fi.module.name.split(".")[-1], ok,
-           f"objective, gradient, Hessian and reported value are all sign-flipped under `{next(iter(guards))}`" if ok else
-           (f"sign flips use different guards {sorted(guards)}" if len(guards) != 1 else f"no sign flip reaches {sorted(need - roles_hit)} for maximise"),
-           loc=fi.loc, detail="maximise-negation-consistent")
+            if d not in ("compile_expression", "compile_jacobian", "compile_gradient", "compile_hessian") or not c.args:
+                continue
+            a0 = c.args[0]
+            if isinstance(a0, ast.List) and len(a0.elts) == 1:
+                a0 = a0.elts[0]
+            # only artefacts of the objective (constraints are compiled from c_expr etc.)
+            vals = {}
+            try:
+                for world in ("max", "min"):
+                    vals[world] = _world_value(prog, f2, a0, world, "objective")
+            except AnalysisError:
+                vals = {}
+            if not vals or vals.get("max") is None or vals.get("min") is None or "BASE" not in vals["min"].key():
+                continue
+            n_art += 1
+            ok = vals["max"].eq(al_.C(-1) * al_.A("BASE")) and vals["min"].eq(al_.A("BASE"))
+            rep.ob("R09.2", f"{f2.name}:{d}", ok, f"{d} is handed -objective iff the user maximises" if ok else f"{d} is handed {vals['max'].key().replace('BASE', 'objective')} when maximising and {vals['min'].key().replace('BASE', 'objective')} when minimising: objective, gradient and Hessian must all be compiled from -objective exactly for maximise", loc=f"{f2.module.rel}:{c.lineno}", detail="maximise-negation-consistent", robust=True)
+    if n_art < 3:
+        rep.undecided(f"R09.2: only {n_art} compiled artefacts of the objective could be interpreted (objective, gradient, Hessian expected)")
 
 
 def _success_optimal(prog, rep, fi, call):
     par = getattr(call, "_parent", None)
     res = par.targets[0].id
-    flags = [nm for nm, vals in local_assignments(fi.node).items() if any(isinstance(v, ast.Constant) and v.value is False for v in vals) and "violat" in nm]
-    prem = And(atom(f"{res}.success"), *[Not(atom(f)) for f in flags])
+    # "no violation" = the local boolean(s) that the OPTIMAL arm under `success` requires to be false (whatever they
+    # are called and however they are computed)
+    flags = set()
+    for st0, n0 in status_sites(fi):
+        if st0 == "OPTIMAL":
+            pc0 = path_condition(n0)
+            if f"{res}.success" in pc0.atoms():
+                for a in pc0.atoms():
+                    if a.isidentifier() and counterexample(pc0, Not(atom(a))) is None:
+                        flags.add(a)
+    if not flags:
+        flags = {nm for nm, vals in local_assignments(fi.node).items() if any(isinstance(v, ast.Constant) and v.value is False for v in vals) and "violat" in nm}
+    prem = And(atom(f"{res}.success"), *[Not(atom(f)) for f in sorted(flags)])
     bad = []
     from ..astutil import enclosing
     tr = enclosing(call, ast.Try)
